@@ -40,7 +40,8 @@ func orient(p Poly, op token.Token) string {
 
 func isNilTest(s cmpSite) bool {
 	for _, a := range atomsOf(s.p) {
-		if a == "nil" {
+		// nil tests are err.flow's; `b == true` / `b == false` is a boolean condition written out, not a boundary
+		if a == "nil" || a == "true" || a == "false" {
 			return true
 		}
 	}
@@ -52,7 +53,9 @@ func isNilTest(s cmpSite) bool {
 type sibItem struct {
 	sign       string // "-" only in the predecessor, "+" only in the later fork
 	n, r, a    string
+	ra         string // type-named AND resolved: equal for a renamed local, different for a local defined differently
 	sn, sr, sa string // the side of each form's cut on which the path is refused or skipped ("" unknown)
+	uses       []string
 }
 
 func (it sibItem) String() string { return it.sign + it.n + "¦" + it.r + "¦" + it.a }
@@ -127,7 +130,11 @@ func siblingDiffs(all map[string][]cmpSite) []sibDiff {
 				for _, s := range ss {
 					it := sibItem{sign: sign, n: canonCut(s.p, s.op), r: canonCut(s.pr, s.op), a: canonCutAbs(s.pa, s.op)}
 					it.sa = cutSide(lastAbsPoly, s.rop)
+					it.ra = canonCutAbs(s.pra, s.op)
 					it.sn, it.sr = cutSide(s.p, s.rop), cutSide(s.pr, s.rop)
+					for u := range s.uses {
+						it.uses = append(it.uses, u)
+					}
 					out = append(out, it)
 				}
 				return out
@@ -147,13 +154,14 @@ func siblingDiffs(all map[string][]cmpSite) []sibDiff {
 					}
 				}
 			}
-			cancel(func(x, y sibItem) bool { return x.n == y.n && pol(x.sn, y.sn) })
+			// equal once locals are resolved (the same test, whatever was put in a local first); equal names alone do
+			// not cancel: a local of the same name may be DEFINED differently in the two copies (deneb's churnLimit)
 			cancel(func(x, y sibItem) bool { return x.r == y.r && pol(x.sr, y.sr) })
 			// renamed locals: equal once locals are named by type — unless the name the predecessor uses is still a
 			// variable of this copy, in which case another value of the same type was put in its place
 			forkFn := f + "." + name
 			cancel(func(x, y sibItem) bool {
-				return x.a == y.a && pol(x.sa, y.sa) && len(stillDeclaredIn(forkFn, []string{x.n}, []string{y.n, y.r})) == 0
+				return x.a == y.a && x.ra == y.ra && pol(x.sa, y.sa) && len(stillDeclaredIn(forkFn, []string{x.n}, append([]string{y.n, y.r}, y.uses...))) == 0
 			})
 			d.items = append(append(d.items, bs...), fs...)
 			sort.Slice(d.items, func(i, j int) bool { return d.items[i].sign+d.items[i].a < d.items[j].sign+d.items[j].a })
@@ -241,6 +249,10 @@ func ruleSiblingCmp(c *Ctx) {
 		switch {
 		case tabled && w.rewrite:
 			c.info(key, d.pos, "the %s version is a different algorithm (%s); not compared", d.fork, w.why)
+		case strings.Contains(d.sig(), "§struct{"):
+			// one copy walks a local table of (what, count, limit) rows: its comparisons are on the row's fields and
+			// say nothing comparable; the limits themselves are limits.first's business, which reads such tables
+			c.info(key, d.pos, "one of the copies is table-driven (comparisons on the fields of a local row type); not compared here")
 		case tabled && d.matches(w.delta):
 			c.ok(key, d.pos, "differs from %s exactly by the recorded fork delta (%s)", d.base, w.why)
 		case tabled:
